@@ -190,7 +190,9 @@ func (rt *xTransport) RoundTrip(req *http.Request) (*http.Response, error) {
 }
 
 var xMethods = []string{"GET", "POST", "PUT", "DELETE", "HEAD", "PATCH", "OPTIONS", "get", "Post", "PURGE", "M-SEARCH", "X_CUSTOM"}
-var xHdrKeys = []string{"Content-Type", "content-type", "X-Account-ID", "x-lower-case", "X-MiXeD-CaSe", "Host", "host", "Authorization", "Accept", "User-Agent", "X_Under_Score"}
+var xHdrKeys = []string{"Content-Type", "content-type", "X-Account-ID", "x-lower-case", "X-MiXeD-CaSe", "Host", "host", "Authorization", "Accept", "User-Agent", "X_Under_Score",
+	// a target that names the attacker's own two headers: the attack's values are the ones that go out
+	"X-Vegeta-Seq", "X-Vegeta-Attack"}
 var xHdrVals = []string{"1", "text/plain", "api.example.org", "Token DEADBEEF", "a, b", "*/*", "x y z", "vegeta-sim"}
 
 func genExchange(t *simrt.Tape, i int, redirects int) *exchange {
@@ -457,6 +459,9 @@ func checkExchange(fail func(string, string, ...any), stats map[string]int, log 
 		fail("C06.req-content-length", "request ContentLength %d, body length %d", q.contentLength, len(x.target.Body))
 	}
 	for k, vs := range x.target.Header {
+		if k == "X-Vegeta-Seq" || (k == "X-Vegeta-Attack" && name != "") {
+			continue // replaced by the attack's own, checked below
+		}
 		if !sameValues(q.header[k], vs) {
 			fail("C06.req-header", "header %q sent as %q, target has %q (original letter case and order must be kept)", k, q.header[k], vs)
 		}
@@ -474,8 +479,11 @@ func checkExchange(fail func(string, string, ...any), stats map[string]int, log 
 	if vs := q.header["X-Vegeta-Seq"]; len(vs) != 1 || vs[0] != strconv.FormatUint(r.Seq, 10) {
 		fail("C06.req-seq-header", "X-Vegeta-Seq on the wire %q, result sequence number %d", vs, r.Seq)
 	}
-	if vs, ok := q.header["X-Vegeta-Attack"]; (name != "") != ok || (ok && (len(vs) != 1 || vs[0] != name)) {
-		fail("C06.req-attack-header", "X-Vegeta-Attack on the wire %q (present=%v), attack name %q", vs, ok, name)
+	if _, own := x.target.Header["X-Vegeta-Attack"]; name != "" || !own {
+		// (an attack without a name adds no header of that name: a target's own one, compared above, stays)
+		if vs, ok := q.header["X-Vegeta-Attack"]; (name != "") != ok || (ok && (len(vs) != 1 || vs[0] != name)) {
+			fail("C06.req-attack-header", "X-Vegeta-Attack on the wire %q (present=%v), attack name %q", vs, ok, name)
+		}
 	}
 	hasChunked := false
 	for _, te := range q.te {
